@@ -134,8 +134,8 @@ var mysqlTypes = []string{"int(11)", "bigint(20)", "tinyint(4)", "tinyint(1)", "
 	"char(3)", "text", "longtext", "datetime", "timestamp", "date", "decimal(10,2)", "double", "float", "json", "enum('a','b')"}
 
 var pgTypeAliases = map[string][]string{
-	"INT8":        {"BIGINT", "INT8"},
-	"INT4":        {"INT", "INTEGER", "INT4"},
+	"INT8":        {"BIGINT", "INT8", "INT", "INTEGER"},
+	"INT4":        {"INT4"},
 	"INT2":        {"SMALLINT"},
 	"STRING":      {"TEXT"},
 	"VARCHAR(64)": {"VARCHAR(64)"},
@@ -401,12 +401,34 @@ func (s *gSchema) script() []Stmt {
 		out = append(out, Stmt{Kind: "createTable", T: t.Name, Cols: t.Cols})
 	}
 	for _, t := range s.Tables {
-		if len(t.Pk) > 0 {
-			out = append(out, Stmt{Kind: "addPk", T: t.Name, Pk: t.Pk})
+		out = append(out, t.keyStmts()...)
+	}
+	for _, t := range s.Tables {
+		for _, f := range t.Fks {
+			out = append(out, Stmt{Kind: "addFk", T: t.Name, A: f.Name, B: f.Col, RT: f.RT, RC: f.RC})
 		}
-		for _, i := range t.Idx {
-			out = append(out, Stmt{Kind: "createIndex", T: t.Name, A: i.Name, Pk: i.Cols, Unique: i.Unique, Using: i.Using})
-		}
+	}
+	return out
+}
+
+func (t *gTable) keyStmts() []Stmt {
+	var out []Stmt
+	if len(t.Pk) > 0 {
+		out = append(out, Stmt{Kind: "addPk", T: t.Name, Pk: t.Pk})
+	}
+	for _, i := range t.Idx {
+		out = append(out, Stmt{Kind: "createIndex", T: t.Name, A: i.Name, Pk: i.Cols, Unique: i.Unique, Using: i.Using})
+	}
+	return out
+}
+
+// grouped script: every table followed at once by its own keys and indexes (what FromObjects produces per model),
+// foreign keys last
+func (s *gSchema) scriptGrouped() []Stmt {
+	var out []Stmt
+	for _, t := range s.Tables {
+		out = append(out, Stmt{Kind: "createTable", T: t.Name, Cols: t.Cols})
+		out = append(out, t.keyStmts()...)
 	}
 	for _, t := range s.Tables {
 		for _, f := range t.Fks {
